@@ -242,6 +242,38 @@ def _topologies(repo):
     t.link(o, [BUF], b)
     t.link(o, [BUF], c)
     out.append(("fan:above-nobranch", t, [a, b, c]))
+    # sibling branches of one output: a legal fan-out (at the output / at a pass-through adapter) next to a branch through a
+    # no-branch adapter, in both link orders - what holds below the no-branch adapter does not hold for its siblings
+    for nb_kind in (BUF, DPULL):
+        for nb_first in (False, True):
+            for fan_at in ("pass", "output"):
+                t = Topo(repo)
+                a, b, c, d = t.comp("A"), t.comp("B"), t.comp("C"), t.comp("D")
+                o = t.output(a)
+
+                def fan_branch():
+                    head = t.link(o, [PASS], None) if fan_at == "pass" else []
+                    t.link(o, head, b)
+                    t.link(o, head, c)
+
+                if nb_first:
+                    t.link(o, [nb_kind], d)
+                    fan_branch()
+                else:
+                    fan_branch()
+                    t.link(o, [nb_kind], d)
+                out.append((f"fan:sibling-of-{nb_kind}:fan-at-{fan_at}:{'nobranch' if nb_first else 'fan'}-linked-first", t, [a, b, c, d]))
+    # the forgotten source component feeds the first / middle / last input of a consumer with three inputs
+    for pos in (0, 1, 2):
+        for chain in ([], [PASS]):
+            t = Topo(repo)
+            a, b = t.comp("A"), t.comp("B")
+            x = t.comp("X")
+            oa = t.output(a, "out")
+            ox = t.output(x, "xout")
+            for i in range(3):
+                t.link(ox if i == pos else oa, list(chain) if i == pos else [], b, f"in{i}")
+            out.append((f"missing-upstream:input-{pos}-of-3:{'>'.join(chain) or 'direct'}", t, [a, b]))
     # missing components (distinct and identical slot names)
     for same_names in (False, True):
         t = Topo(repo)
